@@ -59,6 +59,19 @@ def sparse_schemes(draw):
 
 
 @st.composite
+def wide_range_schemes(draw):
+    """one penalty family dwarfs the others: B[1] (and possibly B[4]) in the hundreds or thousands, the tie and
+    missing-element penalties of the order of 1 - valid, exactly summable, and any threshold expressed relatively to
+    B[1] (or any normalisation by it) is off by three orders of magnitude for the small ones"""
+    big = draw(st.sampled_from([256.0, 1024.0, 4096.0]))
+    v = st.sampled_from([0.0, 0.5, 1.0, 2.0, 3.0])
+    b2 = draw(v)
+    b4 = draw(st.sampled_from([0.0, 1.0, 3.0, big]))
+    b3 = min(draw(v), b4)
+    return [[0.0, big, b2, b3, b4, draw(v)], [draw(v)] * 2 + [0.0] + [draw(v)] * 2 + [draw(v)]]
+
+
+@st.composite
 def preset_multiples(draw, names=None):
     name = draw(st.sampled_from(sorted(PRESETS) if names is None else names))
     k = draw(st.sampled_from(DYADIC_FACTORS))
@@ -131,7 +144,7 @@ def scaled_schemes(draw):
 def dyadic_schemes():
     """exactly representable penalties: every library comparison is decided on exact values"""
     return st.one_of(free_schemes(), free_schemes(), preset_multiples(), near_presets(), free_schemes(),
-                     preset_multiples(), scaled_schemes(), p_family_schemes(), sparse_schemes())
+                     preset_multiples(), scaled_schemes(), p_family_schemes(), sparse_schemes(), wide_range_schemes())
 
 
 def decimal_schemes():
@@ -140,7 +153,7 @@ def decimal_schemes():
 
 def any_schemes():
     return st.one_of(free_schemes(), free_schemes(), preset_multiples(), near_presets(), decimal_schemes(),
-                     free_schemes(), preset_multiples(), scaled_schemes(), p_family_schemes(), sparse_schemes())
+                     free_schemes(), preset_multiples(), scaled_schemes(), p_family_schemes(), sparse_schemes(), wide_range_schemes())
 
 
 def scheme_labels(s):
